@@ -68,7 +68,7 @@ theorem topoRank_is_ranking {edges : List (Nat × Nat)} {r : Nat → Nat} (h : t
     ∀ e, e ∈ edges → r e.1 < r e.2 :=
   topoRank_sound h
 
-/-- **the generated lock-acquisition table admits a ranking**: under the rank computed by
+/-- **the generated lock-acquisition table has a ranking**: under the rank computed by
 relaxation over its order constraints, every entry is ascending or excused by the gate
 (`BoboEngine._lock`).  Kernel-evaluated on the concrete finite table. -/
 theorem graph_ranked :
